@@ -144,8 +144,12 @@ theorem dist_switch_touches_no_ledger (cfg : Cfg) (s s' : St) (sender a : Nat)
     (`WW.Model.Feeflow`): besides the distributor's own operations (including the switch of the
     distribution asset) these contain everything the other contracts of the fee pipeline accept in
     mid-history — `CollectFees` / `AggregateFees` sent to the collector directly by anybody, `ForwardFees`
-    attempts, collector configuration, trades, flash loans, route and pair administration, bonding.  Each
-    of them either is a distributor operation or leaves the ledger untouched (`Feeflow.step_projects`). -/
+    attempts, collector configuration, trades, flash loans, route and pair administration, bonding — and every
+    one of these messages WITH NATIVE COINS ATTACHED (`Feeflow.Op.coins`, any asset, any amount, nested = several
+    coins): the distributor ignores `info.funds`, so coins attached to `NewEpoch` / `Claim` / `UpdateConfig` are
+    a gift to its balance followed by the operation, coins attached to a message for another contract do not
+    touch it.  Each operation acts on the ledger as a (possibly empty) history of distributor operations
+    (`Feeflow.step_projects`). -/
 theorem joint_histories (cfg : Feeflow.Cfg) (s : Feeflow.St) (hI : Inv s.d) (ops : List Feeflow.Op) :
     let s' := Feeflow.reach cfg s ops
     (∀ e ∈ s'.d.epochs, e.avail ≠ [] → ∀ a, LedgerClause e a) ∧
